@@ -32,7 +32,7 @@ class Foo(HasTraits):
 
 
 KINDS = ["const", "anylist", "anydict", "list", "dict", "set", "inst", "factory", "dyn", "tuplelist", "tuple3",
-         "unionlist", "dictlist", "listlist", "anysublist", "anyodict", "dynenumdyn", "uniondef", "tupledef", "unionany", "unionanydict", "mapdyn"]
+         "unionlist", "dictlist", "listlist", "anysublist", "anyodict", "dynenumdyn", "uniondef", "tupledef", "unionany", "unionanydict", "mapdyn", "listanynested"]
 
 
 class Tags(list):
@@ -49,6 +49,9 @@ def decl(kind):
     if kind == "uniondef":
         # the default given to the Union itself, as a plain list
         return Union(List(Int), None, default_value=[1]), [1]
+    if kind == "listanynested":
+        # a container default that holds a MUTABLE item (the per-instance copy of the default is shallow)
+        return List(Any, [[1]]), [[1]]
     if kind == "unionany":
         # the FIRST member of the Union has a "copy this list" default
         return Union(Any([1, 2]), Int), [1, 2]
@@ -95,7 +98,7 @@ def decl(kind):
     raise AssertionError(kind)
 
 
-ASSIGN = {"unionany": [3], "unionanydict": {"b": 2}, "mapdyn": "b", "uniondef": [3], "dynenumdyn": 3, "anysublist": [3], "anyodict": {"b": 2}, "const": 1, "anylist": [3], "anydict": {"b": 2}, "list": [3], "dict": {"b": 2}, "set": {3}, "inst": None,
+ASSIGN = {"listanynested": [[3]], "unionany": [3], "unionanydict": {"b": 2}, "mapdyn": "b", "uniondef": [3], "dynenumdyn": 3, "anysublist": [3], "anyodict": {"b": 2}, "const": 1, "anylist": [3], "anydict": {"b": 2}, "list": [3], "dict": {"b": 2}, "set": {3}, "inst": None,
           "factory": [3], "dyn": [3], "tuplelist": ([3], 1), "tupledef": ([3], 1), "tuple3": ("s", {"q": 1}, 2), "unionlist": [3],
           "dictlist": {"q": [3]}, "listlist": [[3]]}
 
@@ -255,6 +258,8 @@ def run(case, ctx):
         """Known family F50b: a plain list in a subclass body over an inherited Any list default."""
         if attr in over_anylist:
             return "/subclass-list-over-any"
+        if attr in names and kinds[names.index(attr)] == "listanynested":
+            return "/nested-mutable-in-container-default"          # known family F67
         if attr in names and kinds[names.index(attr)] == "tupledef":
             return "/explicit-tuple-default"          # known family F61
         return ""
@@ -424,7 +429,7 @@ def run(case, ctx):
                     tgt = v[1]
                 if kind == "dictlist":
                     tgt = v.get("k", None)
-                if kind == "listlist":
+                if kind in ("listlist", "listanynested"):
                     tgt = v[0] if v else None
                 if isinstance(tgt, list):
                     tgt.append(42)
